@@ -40,6 +40,13 @@ func runC08(c *Ctx) {
 	r.Rule("C08.K6", "nil-call: calls through function/interface values from globals or maps are nil-guarded", 2)
 	r.Rule("C08.K7", "arith: no division/shift by a variable, no make with an unchecked size", 1)
 	r.Rule("C08.K8", "termination: loops range over finite collections, no recursion", 2)
+	// Apply/toOCI dereference every list entry of a loaded Spec: what makes that safe is
+	// that loading rejects null entries
+	nilElementsRejected(c, "C08.K2", "validated-elements:")
+	// the background goroutine ends only when it was told to (its channels were closed)
+	if ws := analyseWatch(c, "C08.K4"); ws != nil {
+		watchExitsOnlyWhenClosed(c, ws, "C08.K4", "goroutine-exit-only-when-closed")
+	}
 
 	boundsCheck(c, "C08.K1", libPkgs)
 
